@@ -840,7 +840,11 @@ impl<'b> InnerBucket<'b> {
                 // Handle root node speially
                 if node.page_id == self.meta.root_page {
                     // If the root node has only one branch, promote that page to the root page
-                    if !node.leaf() && node.data.len() == 1 {
+                    if !node.leaf() && node.data.len() == 0 {
+                        // every child was emptied and removed: the bucket is empty again
+                        node.data = NodeData::Leaves(Vec::new());
+                        node.children.clear();
+                    } else if !node.leaf() && node.data.len() == 1 {
                         // delete the root node
                         node.free_page(tx_freelist);
                         node.deleted = true;
@@ -873,7 +877,9 @@ impl<'b> InnerBucket<'b> {
                         // since there are no siblings to move the data to.
                         // When we handle the parent, it will get merged with it's siblings or promoted
                         // to root.
-                        if branches.len() == 1 {
+                        // An empty node has no data to keep, though: left in place it would reach
+                        // spill, which cannot make a branch entry for a node without a first key.
+                        if branches.len() == 1 && node.data.len() > 0 {
                             continue;
                         }
                         // check if there is any data left to copy
